@@ -3,10 +3,13 @@ package c12
 import (
 	"fmt"
 	"math"
+	"strconv"
 	"strings"
 
 	"wrverif/c02"
+	"wrverif/mp"
 	"wrverif/res"
+	"wrverif/sx"
 )
 
 // node is a box of the abstract tree with the bookkeeping the judges need.
@@ -88,7 +91,7 @@ type where struct {
 	y         float64
 }
 
-func judge(doc *c02.ClassF, rs ruleSet, impl []implPage, seed uint64, out *res.Result) {
+func judge(m *mp.Model, doc *c02.ClassF, rs ruleSet, impl []implPage, seed uint64, out *res.Result) error {
 	add := func(op, key, why string) {
 		out.Add(res.Finding{Kind: "judge", Op: "judge:" + op, Input: doc.HTML, Impl: fmtImpl(impl), Reason: why, Key: key, Seed: seed})
 	}
@@ -234,6 +237,50 @@ func judge(doc *c02.ClassF, rs ruleSet, impl []implPage, seed uint64, out *res.R
 		}
 	}
 
+	// legalBetween: is a break between the consecutive tokens ta, tb (ta on page i) a legal break
+	// (CSS Fragmentation 3 §3.1 classes A and C, §4.4 rules 1-4)?
+	legalFrom := func(a0, ta, tb int) (bool, string) {
+		pa, pb := paraOf[ta], paraOf[tb]
+		if pa == nil || pb == nil {
+			return false, ""
+		}
+		if pa == pb {
+			// class C break inside a paragraph
+			before, after := 0, 0
+			for _, t := range pa.b.Lines {
+				if t >= a0 && t <= ta {
+					before++
+				}
+				if t > ta {
+					after++
+				}
+			}
+			return !avoidInsideChain(pa) && before >= pa.b.St.Orph && after >= pa.b.St.Wid,
+				fmt.Sprintf("between lines %s and %s of a paragraph (orphans %d widows %d)", c02.Tok(ta), c02.Tok(tb), pa.b.St.Orph, pa.b.St.Wid)
+		}
+		// class A break between the sibling boxes at which the two paragraphs part
+		anc := map[*node]bool{}
+		for x := pa; x != nil; x = x.parent {
+			anc[x] = true
+		}
+		y := pb
+		for y.parent != nil && !anc[y.parent] {
+			y = y.parent
+		}
+		c := y.parent
+		x := pa
+		for x.parent != c {
+			x = x.parent
+		}
+		v := between(x, y)
+		if force(v) || x.lastP.b.St.Pg != y.firstP.b.St.Pg {
+			return true, "forced"
+		}
+		return !avoid(v) && !avoidInsideChain(c), fmt.Sprintf("between the boxes ending with %s and starting with %s", c02.Tok(ta), c02.Tok(tb))
+	}
+
+	legalBetween := func(i, ta, tb int) (bool, string) { return legalFrom(impl[i].lines[0].Tok, ta, tb) }
+
 	// J7: no line extends below the content box when an earlier legal break exists on the page
 	for i, p := range impl {
 		bottom := p.geom[5] + p.geom[6]
@@ -241,47 +288,8 @@ func judge(doc *c02.ClassF, rs ruleSet, impl []implPage, seed uint64, out *res.R
 			if p.lines[k].Y+20 <= bottom+geomTol {
 				continue
 			}
-			// line k overflows: is there a legal break between lines j-1 and j for some 1 <= j <= k ?
 			for j := 1; j <= k; j++ {
-				ta, tb := p.lines[j-1].Tok, p.lines[j].Tok
-				pa, pb := paraOf[ta], paraOf[tb]
-				if pa == nil || pb == nil {
-					continue
-				}
-				legal := false
-				why := ""
-				if pa == pb {
-					// class C break inside a paragraph
-					before, after := 0, 0
-					for _, t := range pa.b.Lines {
-						if w, ok := at[t]; ok && w.page == i && t <= ta {
-							before++
-						}
-						if t > ta {
-							after++
-						}
-					}
-					legal = !avoidInsideChain(pa) && before >= pa.b.St.Orph && after >= pa.b.St.Wid
-					why = fmt.Sprintf("between lines %s and %s of a paragraph (orphans %d widows %d)", c02.Tok(ta), c02.Tok(tb), pa.b.St.Orph, pa.b.St.Wid)
-				} else {
-					// class A break between the sibling boxes at which the two paragraphs part
-					anc := map[*node]bool{}
-					for x := pa; x != nil; x = x.parent {
-						anc[x] = true
-					}
-					y := pb
-					for y.parent != nil && !anc[y.parent] {
-						y = y.parent
-					}
-					c := y.parent
-					x := pa
-					for x.parent != c {
-						x = x.parent
-					}
-					legal = !avoid(between(x, y)) && !avoidInsideChain(c)
-					why = fmt.Sprintf("between the boxes ending with %s and starting with %s", c02.Tok(ta), c02.Tok(tb))
-				}
-				if legal {
+				if ok, why := legalBetween(i, p.lines[j-1].Tok, p.lines[j].Tok); ok {
 					add("no-overflow-if-legal-break", "", fmt.Sprintf("page %d: line %s at y=%v extends below the content box (bottom %v) although a legal break exists %s",
 						i, p.lines[k].Text, p.lines[k].Y, bottom, why))
 					break
@@ -290,4 +298,147 @@ func judge(doc *c02.ClassF, rs ruleSet, impl []implPage, seed uint64, out *res.R
 			break // one overflowing line per page is enough
 		}
 	}
+
+	// J8 avoid_honoured_if_possible: a page may end at a point where breaking is to be avoided
+	// (break-before/after/inside: avoid, orphans, widows) only if no conforming break exists on that page
+	for i, p := range impl {
+		if len(p.lines) == 0 {
+			continue
+		}
+		ta := p.lines[len(p.lines)-1].Tok
+		tb := ta + 1 // tokens are numbered in document order
+		if _, ok := at[tb]; !ok || at[tb].page <= i {
+			continue
+		}
+		if ok, _ := legalBetween(i, ta, tb); ok {
+			continue
+		}
+		out.Hit("avoid:page-ends-at-avoid-point")
+		for j := 1; j < len(p.lines); j++ {
+			if ok, why := legalBetween(i, p.lines[j-1].Tok, p.lines[j].Tok); ok {
+				_, how := legalBetween(i, ta, tb)
+				add("avoid-honoured-if-possible", "", fmt.Sprintf("page %d ends %s where a break is to be avoided although a conforming break exists earlier on the page %s", i, how, why))
+				break
+			}
+		}
+	}
+
+	// J9 early_end_justified: a page ends before its content box is full only at a forced break / change
+	// of named page, or because the next unbreakable unit (the lines up to the next legal break: a line,
+	// an orphans/widows group, the boxes an avoid glues together) does not fit.  "Fits" is decided by the
+	// C02 model: the document cut after the unit, with every break-* / orphans / widows constraint
+	// neutralised, is laid out from the page's first line on a page of this page's geometry.
+	lastTok := root.last
+	for i, p := range impl {
+		if len(p.lines) == 0 {
+			continue
+		}
+		a0 := p.lines[0].Tok
+		ta := p.lines[len(p.lines)-1].Tok
+		tb := ta + 1
+		if w, ok := at[tb]; !ok || w.page <= i {
+			continue
+		}
+		if _, why := legalFrom(a0, ta, tb); why == "forced" {
+			out.Hit("early-end:forced")
+			continue
+		}
+		tstar := lastTok
+		forcedInside := false
+		for t := tb; t < lastTok; t++ {
+			if ok, why := legalFrom(a0, t, t+1); ok {
+				tstar = t
+				if why == "forced" {
+					// a forced break inside a break-inside:avoid box that starts within this unit: the
+					// avoid-inside box is part of the unbreakable unit and can never fit on one page
+					for x := paraOf[t]; x != nil; x = x.parent {
+						if avoid(x.b.St.BI) && x.first >= tb && x.last > t {
+							forcedInside = true
+						}
+					}
+				}
+				break
+			}
+		}
+		if forcedInside {
+			out.Hit("early-end:avoid-inside-box-with-forced-break")
+			continue
+		}
+		forced := p.name != 0
+		if i > 0 && a0 > 1 {
+			if _, why := legalFrom(a0, a0-1, a0); why == "forced" {
+				forced = true
+			}
+		}
+		req := sx.L(sx.A("page"), sx.I(80), sx.I(i+1), sx.I(int(p.geom[5]*4)), sx.I(int(p.geom[6]*4)), sx.B(forced),
+			truncated(doc.Root, tstar).X(), resumeFor(root, a0))
+		ans, err := m.Ask(req)
+		if err != nil {
+			return err
+		}
+		if ans.Head() != "ok" || len(ans.Xs) != 3 {
+			out.Hit("early-end:model-abort")
+			continue
+		}
+		bottom := p.geom[5] + p.geom[6]
+		fits := ans.Xs[1].S == "1" && len(ans.Xs[2].Xs) == tstar-a0+1
+		for _, l := range ans.Xs[2].Xs {
+			y, _ := strconv.Atoi(l.Xs[1].S)
+			if float64(y)/4+20 > bottom+geomTol {
+				fits = false
+			}
+		}
+		if fits {
+			add("early-end-justified", "", fmt.Sprintf("page %d ends after %s although the next unbreakable unit %s..%s fits on it (model: %s)",
+				i, c02.Tok(ta), c02.Tok(tb), c02.Tok(tstar), ans.Xs[2].String()))
+		} else {
+			out.Hit("early-end:unit-does-not-fit")
+		}
+	}
+	return nil
+}
+
+// truncated copies the tree up to token last, with every break constraint neutralised (geometry kept).
+func truncated(b *c02.Box, last int) *c02.Box {
+	st := b.St
+	st.BI, st.BB, st.BA, st.Orph, st.Wid, st.Pg = "auto", "auto", "auto", 1, 1, 0
+	nb := &c02.Box{St: st}
+	if b.Lines != nil {
+		nb.Lines = []int{}
+		for _, t := range b.Lines {
+			if t <= last {
+				nb.Lines = append(nb.Lines, t)
+			}
+		}
+		return nb
+	}
+	for _, k := range b.Kids {
+		var first int
+		for x := k; ; x = x.Kids[0] {
+			if x.Lines != nil {
+				first = x.Lines[0]
+				break
+			}
+		}
+		if first <= last {
+			nb.Kids = append(nb.Kids, truncated(k, last))
+		}
+	}
+	return nb
+}
+
+// resumeFor is the resume stack that addresses token a0: `nil` at the start of a box.
+func resumeFor(n *node, a0 int) sx.X {
+	if a0 == n.first {
+		return sx.A("nil")
+	}
+	if n.b.Lines != nil {
+		return sx.L(sx.I(0), sx.L(sx.I(a0-n.first), sx.A("nil")))
+	}
+	for idx, k := range n.kids {
+		if k.first <= a0 && a0 <= k.last {
+			return sx.L(sx.I(idx), resumeFor(k, a0))
+		}
+	}
+	return sx.A("nil")
 }
